@@ -11,7 +11,9 @@
 //        flags: '-' or letters  S sender!=announcer  E empty uri  W wrong PoW nonce  G undecodable uri
 //               I manifest of another chunk  T threshold unmet  X expired  x ttl below minimum
 //               A assigned shard not in manifest  n no assigned shards  e no endpoint
-//        -> f=<sm ne pv dec idm thr unx asg> rep=<n> h=<len> fl=<len> lk=<until-now|-> mc=<0/1> pc=<0/1> pf=<0/1> ks=<n> chg=<mkpf>
+//        -> f=<sm ne pv dec idm thr unx asg> rep=<n> h=<len> fl=<len> lk=<until-now|-> mc=<0/1> pc=<0/1> pf=<0/1> ks=<n> chg=<mkpf> kr=<0/1>
+//           (kr: may the announced manifest replace what is cached for the chunk - always 1 unless the node holds the chunk)
+//   hold <chunk>                               the node stores the chunk itself (store_chunk)   -> ok
 //   hs <peer> <pub> <ntok>                     perform_handshake
 //   th <peer> <pub> <ntok> <reqver>            handle_transport_handshake
 //   sock <peer> <pub> <ntok>                   SessionManager::handle_pending_handshake over a socketpair
@@ -204,6 +206,10 @@ std::string op_ann(const std::vector<std::string>& t) {
         });
     }
 
+    bool kr = true;
+    if constexpr (requires(Node& n, const protocol::Manifest& m) { n.manifest_keeps_held_chunk_readable(m); }) {
+        if (f_dec) kr = node->manifest_keeps_held_chunk_readable(decoded);
+    }
     const Snap before = snapshot();
     node->handle_announce(p, sender, ver);
     const Snap after = snapshot();
@@ -241,6 +247,7 @@ std::string op_ann(const std::vector<std::string>& t) {
     out += before.k != after.k ? '1' : '0';
     out += before.p != after.p ? '1' : '0';
     out += before.f != after.f ? '1' : '0';
+    out += std::string(" kr=") + (kr ? "1" : "0");
     return out;
 }
 
@@ -400,6 +407,10 @@ int main(int argc, char** argv) {
         if (!vh::node) vh::make_node({});
         if (t[0] == "adv" && t.size() == 2) { verif::vclock_advance(std::stoll(t[1])); return "ok"; }
         if (t[0] == "ann" && t.size() == 6) return vh::op_ann(t);
+        if (t[0] == "hold" && t.size() == 2) {
+            vh::node->store_chunk(verif::id32(t[1]), ephemeralnet::ChunkData(64, 0x5a), std::chrono::seconds(0));
+            return "ok";
+        }
         if ((t[0] == "hs" || t[0] == "sock") && t.size() == 4) return vh::op_handshake(t);
         if (t[0] == "th" && t.size() == 5) return vh::op_handshake(t);
         return "bad-op";
